@@ -165,7 +165,7 @@ CLAIMS = {
         "long-lived context (scripted extender on the real TCP client, real PKI and publications file). After every step every live object must serialize to exactly "
         "its creation bytes (the parsed bytes for parsed and cloned objects) and its verdict under a rotating policy / document / level must equal the verdict a fresh "
         "context gives for the same bytes.",
-   note="After every step additionally a user-defined policy of one public rule (calendar input hash from the given input level) with levels none/0/1/3. quick: 160 sequences of 14 operations (about 2e3 steps, 8e3 verifications); thorough: 1600 sequences. Prepending a local aggregation chain and RFC3161 forms are not exercised.",
+   note="Operations include prepending a local aggregation chain (kind local) through the signature builder. After every step additionally a user-defined policy of one public rule (calendar input hash from the given input level) with levels none/0/1/3. quick: 160 sequences of 14 operations (about 2e3 steps, 8e3 verifications); thorough: 1600 sequences. Prepending a local aggregation chain and RFC3161 forms are not exercised.",
    technique="TLC simulation of an object-lifecycle model (behaviours with post-states) replayed step by step into the real library with abstract-state comparison after every action; fresh-context oracle"),
  "C19": dict(level="fault_enumeration", design_ref="DESIGN.md 4/C19",
    text="AllocFault.tla describes one fault experiment per operation -- Reference, Count, Fault(F), Cleanup, Retry -- and the guards of its actions say what may be observed: "
